@@ -20,7 +20,7 @@ RULE = ('hostile scripts: in each victim state (contact header not yet sent by t
         '(role, script).')
 COMPONENTS = tc.COMPONENTS
 PROBES = ('hostile.pre-session', 'hostile.unknown-id', 'hostile.no-transfer', 'hostile.unknown-type', 'hostile.bad-contact',
-          'hostile.other', 'probe.victim_transfer_completed', 'probe.followup_processed', 'probe.queued_before_session', 'probe.final_ack_while_in_progress', 'probe.final_ack_while_queued', 'probe.refuse_own_queued', 'probe.refuse_own_unstarted')
+          'hostile.other', 'probe.victim_transfer_completed', 'probe.followup_processed', 'probe.queued_before_session', 'probe.final_ack_while_in_progress', 'probe.final_ack_while_queued', 'probe.refuse_own_queued', 'probe.refuse_own_unstarted', 'probe.hostile_while_ending')
 ASSUMPTIONS = ['the reject/terminate/close clause is demanded only for the message classes the statement lists; for other hostile '
                'input only: no escaped exception, no mixed data, own transfers unharmed']
 CHUNK = 20
@@ -68,7 +68,16 @@ def gen(ch, tier):
         nsteps = 1 + ch.pick('nsteps', 6)
         peer_tid = 1
         for _ in range(nsteps):
-            kind = ch.weighted('step', (5, 2, 2, 2))
+            kind = ch.weighted('step', (5, 2, 2, 2, 2))
+            if kind == 4:
+                # the victim's user ends the session while one of its transfers is still unacknowledged (the peer holds its
+                # acknowledgements back): hostile messages then meet an endpoint in the ending state that cannot close yet
+                script.append(dict(step='victim_send', len=ch.choice('vlen', (1, 40, 300)), tag=tag, hold_ack=True))
+                tag += 1
+                script.append(dict(step='victim_term', hold_ack=True))
+                for _h in range(1 + ch.pick('n.ending', 2)):
+                    script.append(dict(step='hostile', state='established', msg=_hostile(ch, 'established'), hold_ack=True))
+                break
             if kind == 0:
                 script.append(dict(step='hostile', state='established', msg=_hostile(ch, 'established')))
             elif kind == 1:
@@ -244,6 +253,12 @@ def _drive(run, plan, har):
                 har.settle()
                 if step.get('early'):
                     run.stats['probe.queued_before_session'] = 1
+        elif kind == 'victim_term':
+            hdl = har.victim_state()
+            if hdl is not None and hdl._in_sess and not hdl._in_term:
+                har.call(har.contact, 'terminate', 0)
+                har.settle()
+                run.stats['probe.hostile_while_ending'] = 1
         elif kind == 'peer_term':
             # the peer ends the session in the regular way; the victim must answer and survive (no escaped exception)
             har.deliver(rfc9174.encode(dict(kind='SESS_TERM', flags=0, reason=0)))
@@ -263,7 +278,9 @@ def _drive(run, plan, har):
                 har.settle()
                 if step.get('inject_after') == six + 1:
                     _do_hostile(run, har, step['msg'], state)
-        _ack_victim(run, har, state)
+        if not step.get('hold_ack'):
+            _ack_victim(run, har, state)
+    _ack_victim(run, har, state)
     # the endpoint keeps running: a well-formed transfer is still processed
     alive = not har.victim_closed() and not state['dead'] and established
     hdl = har.victim_state()
